@@ -25,6 +25,11 @@ CLAIMED = {
         text="TLC checks WellFormed in every state and Nesting on every Refine step for dimensions 1..3, several left/right shapes, up to 3 refinements, aliased and per-dimension storage, arithmetic mid-points and arbitrary interior cell boundaries. Every real grid constructor (fixed-size, uniform, geometric, geometric-with-bounds, probability-step, credit symmetric/asymmetric, user-built per-axis grids; 6 one-dimensional models, 2-d and 3-d copula models) is run and refined up to 3-5 times; each recorded grid is validated by TLC: strictly increasing, 0 / -h / +h at the origin index, truncations = end points, old states at twice their index, inserted state strictly inside the gap and equal to the grid's own middle() computed before the refinement, h halved, origin doubled. TimeGrid end points / length / monotonicity / argument checks.",
         note="Trusted: TLC, rank sensor (order/equality exact). Promised tail and per-step probabilities are quantised numeric post-conditions (thin). Precondition h < min(|l|, r) for truncation-based constructors.",
         ref="5 (C13)"),
+    "C14": dict(
+        technique="TLA+ specs Pairing.tla (pairings, signed extensions, interval enumeration, lazy product in exact integer arithmetic) and Enumeration.tla (stateful StatesManager enumeration) model-checked by TLC; recorded calls of the real functions in many call orders trace-validated by TLC",
+        text="TLC walks indices 0..300 (2500 thorough) for nine pairings/extensions and checks round trip, range, injectivity, ontoness of the interval enumeration, and bijectivity of the mixed-radix lazy product for all size tuples with product <= 64; Enumeration.tla checks that the skip-pointer enumeration returns every admissible state of 112 boxes (1-d..3-d) exactly once before exhaustion. The real Cantor / Rosenberg-Strong / Szudzik / Pepis-Kalmar / hyperbolic pairings (d = 2, 3), PairingToZd, PairingToZ1d (increasing, decreasing, permuted, repeated, revisiting call orders), lazy_indices_product and StatesManager are run; TLC validates projection-then-pairing and pairing-then-projection (limb-encoded at magnitudes next to perfect squares up to m = 2e8 and cubes up to m = 1e5), every-tuple-once on index blocks, call-order independence, exactly-once enumeration.",
+        note="Trusted: TLC, limb sensor. gmpy2 shimmed by exact rationals. Domains without boundary only.",
+        ref="5 (C14)"),
 }
 
 NOT_APPLICABLE = {
